@@ -119,7 +119,48 @@ def campaign(seed, n, switches=frozenset()):
     return stats
 
 
+def enumerate_on_lists(part, nparts, max_len=17, switches=frozenset()):
+    """Every ON..GOTO / ON..GOSUB list of 1..max_len targets (distinct, ascending / descending / with a repeated target) under every selector
+    value 0..len+1: the k-th value reaches the k-th target, values outside the list fall through (complete enumeration)."""
+    stats = Stats()
+    k = 0
+    for n in range(1, max_len + 1):
+        for order in ("asc", "desc", "repeat"):
+            for word in ("GOTO", "GOSUB"):
+                for sel in range(0, n + 2):
+                    k += 1
+                    if k % nparts != part:
+                        continue
+                    lines = list(range(100, 100 + 10 * n, 10))
+                    tg = list(lines)
+                    if order == "desc":
+                        tg.reverse()
+                    elif order == "repeat" and n >= 2:
+                        tg[n // 2] = tg[0]
+                    mark = lambda x: ["print", [["e", ["str", "L%d" % x]], ["s", ";"]]]
+                    prog = [[10, [["let", ["var", "A"], ["num", str(sel), sel], False]]],
+                            [20, [["on", ["var", "A"], word, tg], mark(20)]],
+                            [30, [["end"]]]]
+                    for ln in lines:
+                        prog.append([ln, [mark(ln), ["return"] if word == "GOSUB" else ["end"]]])
+                    case = {"prog": prog, "option_sets": [OPTION_SETS[0], OPTION_SETS[-1]]}
+                    try:
+                        check_case(case)
+                    except Violation as v:
+                        stats.fail(v.detail, v.case)
+                        return stats
+                    stats.case(key=[n, order, word, sel], nontrivial=n >= 2 and not case.get("_trivial"), classes=["on_list_len_%d" % n, "on_list_" + order],
+                               sample={"source": case.get("_source", "")})
+    return stats
+
+
 def plan(tier, seed, switches):
     if tier == "quick":
-        return [("campaign", [dict(seed=seed * 100 + k, n=150, switches=switches) for k in range(4)])]
-    return [("campaign", [dict(seed=seed * 1000 + k, n=2500, switches=switches) for k in range(16)])]
+        return [("campaign", [dict(seed=seed * 100 + k, n=150, switches=switches) for k in range(4)]),
+                ("enumerate_on_lists", [dict(part=k, nparts=8, max_len=13, switches=switches) for k in range(8)])]
+    return [("campaign", [dict(seed=seed * 1000 + k, n=2500, switches=switches) for k in range(16)]),
+            ("enumerate_on_lists", [dict(part=k, nparts=16, max_len=40, switches=switches) for k in range(16)])]
+
+
+def evidence_extra(stats):
+    return {"exhaustive_part": "every ON..GOTO / ON..GOSUB list of 1-13 targets (1-40 in the thorough tier; ascending, descending, with a repeated target) is run under every selector value 0..len+1 on every run"}
